@@ -121,7 +121,10 @@ def sympy_table(e, names, tables, mask):
     if e is False or e is sympy.false:
         return 0
     if isinstance(e, sympy.Symbol):
-        return tables[e.name]
+        t = tables.get(e.name)
+        if t is None:
+            raise KeyError(e.name)     # undefined (or poisoned) symbol
+        return t
     if isinstance(e, boolalg.Not):
         return mask ^ sympy_table(e.args[0], names, tables, mask)
     if isinstance(e, boolalg.And):
